@@ -90,3 +90,46 @@ Proof.
   exists (render [] r). split; [|exact P].
   rewrite E. apply (parse_header_exact_v2_c l h core (last_ws r) encbody V L B Hw). rewrite <- E. exact EN.
 Qed.
+
+(** * C04 through the front door: a FILE whose document has a data child violating the declared limit of its attribute is split, parsed to
+    its tree, and REFUSED by conversion (header engine + tokenizer + the typed limit clause composed) *)
+From OfxV Require Import Proofs.TypedLimits.
+Theorem file_limit_violation_rejected_v1_l l h cd table conv_dt S (d : doc) (r : rdoc) encbody tag xx ch c k t req e child rn x pre post :
+  valid1 h = true -> lay1_ok l h = true -> spec_codec (h1_charset h) = Some cd ->
+  wf_doc d = true -> ok_rendering [] r d -> ends_tag r = true -> all_ws (last_ws r) = true ->
+  encode_opt cd (render [] r) = Some encbody ->
+  tree_of d = up (Node tag xx ch) ->
+  lookup_tag S tag = Some c -> In (k, AElem t req) (spec_no_list c) ->
+  filter (fun en => negb (is_list_entry en)) (entries c false ch) = (pre ++ (k, AElem t req, child, rn) :: post)%list ->
+  (forall p, In p pre -> entry_name p <> k) ->
+  etext child = Some x -> x <> [] ->
+  lookup_ety table t = Some (ESty e) -> violates e x ->
+  exists msg, parse_header (file1 l h encbody) = OK (H1 h, msg)
+              /\ parse repaired msg = OK (Some (up (Node tag xx ch)))
+              /\ exists err, from_etree pyval (conv_typed table conv_dt) S (Node tag xx ch) = Err err.
+Proof.
+  intros V L SC Hd Hr He Hw EN Ht Hc Hin Hf Hpre Hx Hne Hty Hv.
+  destruct (file_parse_faithful_v1_l l h cd d r encbody V L SC Hd Hr He Hw EN) as (msg & P1 & P2).
+  exists msg. split; [exact P1|]. split; [rewrite P2, Ht; reflexivity|].
+  exact (typed_limit_violation_rejected_tree_l table conv_dt S tag xx ch c k t req e child rn x pre post Hc Hin Hf Hpre Hx Hne Hty Hv).
+Qed.
+
+Theorem file_limit_violation_rejected_v2_l l h table conv_dt S (d : doc) (r : rdoc) encbody tag xx ch c k t req e child rn x pre post :
+  valid2 h = true -> lay2_ok l = true ->
+  wf_doc d = true -> ok_rendering [] r d -> ends_tag r = true -> all_ws (last_ws r) = true ->
+  encode_opt 2 (render [] r) = Some encbody ->
+  tree_of d = up (Node tag xx ch) ->
+  lookup_tag S tag = Some c -> In (k, AElem t req) (spec_no_list c) ->
+  filter (fun en => negb (is_list_entry en)) (entries c false ch) = (pre ++ (k, AElem t req, child, rn) :: post)%list ->
+  (forall p, In p pre -> entry_name p <> k) ->
+  etext child = Some x -> x <> [] ->
+  lookup_ety table t = Some (ESty e) -> violates e x ->
+  exists msg, parse_header (file2 l h encbody) = OK (H2 h, msg)
+              /\ parse repaired msg = OK (Some (up (Node tag xx ch)))
+              /\ exists err, from_etree pyval (conv_typed table conv_dt) S (Node tag xx ch) = Err err.
+Proof.
+  intros V L Hd Hr He Hw EN Ht Hc Hin Hf Hpre Hx Hne Hty Hv.
+  destruct (file_parse_faithful_v2_l l h d r encbody V L Hd Hr He Hw EN) as (msg & P1 & P2).
+  exists msg. split; [exact P1|]. split; [rewrite P2, Ht; reflexivity|].
+  exact (typed_limit_violation_rejected_tree_l table conv_dt S tag xx ch c k t req e child rn x pre post Hc Hin Hf Hpre Hx Hne Hty Hv).
+Qed.
